@@ -23,3 +23,52 @@ for n in sorted(os.listdir(os.path.join(V, 'seeded'))):
                                                    str(m.get('needs', ''))[:220].replace('|', '/').replace('\n', ' '), ', '.join(caught) or '-', how))
 open(os.path.join(V, 'docs', 'SEEDED.md'), 'w').write('\n'.join(rows) + '\n')
 print(len(rows) - 8, 'changes')
+
+# --- compact table inside DESIGN.md (between the SEEDED markers of section 17) ---
+STRENGTHENED = {
+    'C14_1': 'fit() cases with binding tolerances and an oracle on Curve.error over all spans',
+    'C02_2': 'objects with equal weights != 1 in every calling form',
+    'C04_2': 'geometric_refine(reverse=True) on periodic directions',
+    'C15_2': 'two-curve edge_curves with equal order/size but different knots',
+    'C16_1': 'explicit sub-interval bounds equal to 0',
+    'C16_2': 'non-open (unclamped) bases in center()',
+    'C08_2': 'from-left evaluation at points wrapped onto the seam from outside (C08); C01 caught it from the start',
+    'C10_1': 'small periodic bases with insertion index in the overlap of both ghost regions',
+    'C01_3': 'several points in one evaluate call, unsorted (the pyx translator caught it from the start)',
+    'C02_3': 'mixed scalar/list parameter forms',
+    'C18_3': 'patches with repeated interior knots',
+    'C03_3': 'multi-step histories: query, in-place op, query again (get_derivative_spline, derivative, tangent)',
+    'C06_3': 'objects built from ONE basis instance in several directions; caller basis checked afterwards',
+    'C12_3': 'volumes periodic in the third direction with 1-3 lowering levels, square and non-square nets',
+    'C16_3': '=caught, but without a failing input; oracle then extended: volumes with mixed orders (p,q,p) and full-degree nets; independent high-order quadrature oracle',
+}
+dm = os.path.join(V, 'DESIGN.md')
+txt = open(dm).read()
+B, E = '<!-- SEEDED-BEGIN -->', '<!-- SEEDED-END -->'
+if B in txt and E in txt:
+    t = ['| change | site changed | caught by | decided by | first run |', '|--|--|--|--|--|']
+    nd = nf = nm = 0
+    for n in sorted(os.listdir(os.path.join(V, 'seeded'))):
+        d = os.path.join(V, 'seeded', n)
+        if not os.path.isdir(d):
+            continue
+        m = json.load(open(os.path.join(d, 'meta.json')))
+        r = res.get(n, {})
+        caught = [p_ for p_, c in r.get('checks', {}).items() if c.get('exit') == 1]
+        if r.get('detected_with_failing_input'):
+            how = 'oracle: failing input on the real code'; nf += 1
+        elif r.get('detected'):
+            how = 'correspondence/obligation broke, no-failing-input-found'; nd += 1
+        else:
+            how = 'MISSED' if r else 'not run'; nm += 1
+        files = m.get('files_touched') or []
+        if isinstance(files, str):
+            files = [files]
+        site = ', '.join(os.path.basename(str(f)) for f in files)[:60]
+        first = (STRENGTHENED[n][1:] if STRENGTHENED[n].startswith('=') else 'missed; caught after adding: ' + STRENGTHENED[n]) if n in STRENGTHENED else 'caught'
+        t.append('| %s | %s | %s | %s | %s |' % (n, site, ', '.join(caught) or '-', how, first))
+    t.append('')
+    t.append('Totals: %d changes; %d caught with a failing input, %d caught without one, %d missed.' % (nf + nd + nm, nf, nd, nm))
+    txt = txt[:txt.index(B) + len(B)] + '\n' + '\n'.join(t) + '\n' + txt[txt.index(E):]
+    open(dm, 'w').write(txt)
+
